@@ -621,6 +621,58 @@ def shrink_case(ck, prog, env=None):
         return prog
 
 
+NRC_PROGRAMS = [
+    ("(with-handler (lambda (e) 'outer) (with-handler (lambda (e) (error \"again\")) (error \"body\")))", "'\"outer\"", ""),
+    ("(with-handler (lambda (e) 'outer) (with-handler (lambda (e) (car '())) (vector-ref (vector) 1)))", "'\"outer\"", ""),
+    ("(with-handler (lambda (e) 'o3) (with-handler (lambda (e) (error \"m\")) (with-handler (lambda (e) (error \"i\")) (error \"b\"))))", "'\"o3\"", ""),
+    ("(with-handler (lambda (e) 'caught) (dynamic-wind (lambda () (display \"<\")) (lambda () (error \"x\")) (lambda () (display \">\"))))", "'\"caught\"", "<>"),
+    ("(with-handler (lambda (e) 'ok) (error \"plain\"))", "'\"ok\"", ""),
+    ("(with-handler (lambda (e) 'outer) (list 1 (with-handler (lambda (e) (error \"e2\")) (error \"e1\"))))", "'\"outer\"", ""),
+    ("(list (with-handler (lambda (e) 'a) (error \"1\")) (with-handler (lambda (e) 'b) (with-handler (lambda (e) (error \"3\")) (error \"2\"))))",
+     "('\"a\" '\"b\")", ""),
+    ("(with-handler (lambda (e) (display \"o \") 1) (call/cc (lambda (esc) (with-handler (lambda (e) 2) (esc 7)))) (error \"after\"))", "I1", "o "),
+    ("(with-handler (lambda (e) 'o3) (list 2 (with-handler (lambda (e) (error \"m\")) (list 3 (with-handler (lambda (e) (error \"i\")) (error \"b\"))))))",
+     "'\"o3\"", ""),
+    ("(+ 1 (with-handler (lambda (e) 10) (+ 100 (with-handler (lambda (e) (error \"again\")) (error \"body\")))))", "I11", ""),
+]
+NRC_CONTEXTS = [
+    ("plain", "%s"),
+    ("native-thread", "(thread-join! (spawn-native-thread (lambda () %s)))"),
+    ("transducer-callback", "(car (transduce (list 0) (mapping (lambda (x) %s)) (into-list)))"),
+    ("apply", "(apply (lambda () %s) '())"),
+    ("eval", "(eval '%s)"),
+    ("map-callback", "(car (map (lambda (x) %s) (list 0)))"),
+    ("sort-comparator", "(begin (define c08r #f) (sort (list 2 1) (lambda (a b) (set! c08r %s) (< a b))) c08r)"),
+    ("filtering-callback", "(begin (define c08h #f) (transduce (list 1) (filtering (lambda (x) (set! c08h %s) #t)) (into-list)) c08h)"),
+    ("for-each-callback", "(begin (define c08f #f) (for-each (lambda (x) (set! c08f %s)) (list 0)) c08f)"),
+    ("hash-callback", "(begin (define c08g #f) (transduce (hash 1 2) (mapping (lambda (kv) (set! c08g %s) kv)) (into-list)) c08g)"),
+]
+
+
+def nested_run_contexts(ck):
+    """'a raised error reaches the nearest enclosing handler with the stack unwound to it' when the handlers live in a
+    nested run of the VM (a closure called from Rust: thread body, transducer / sort / map callback, apply, eval) and
+    when a handler itself raises or an escape leaves a with-handler: value and output fixed by the reference meaning."""
+    cases, meta = [], []
+    for src, want, out in NRC_PROGRAMS:
+        for kn, kt in NRC_CONTEXTS:
+            cases.append([kt % src])
+            meta.append((src, kn, want, out))
+    for label, env in JIT_ENVS:
+        res = ck.eval_cases(cases, fresh=True, env=env, batch=10, timeout_per_batch=60)
+        for (src, kn, want, out), units, r in zip(meta, cases, res):
+            ck.cov["evaluations"] += 1
+            r0 = r[0] if r else {"missing": 1}
+            got = (r0.get("ok") or [json.dumps(r0)[:120]])[-1]
+            got_out = "".join(x.get("out", "") for x in r if isinstance(x, dict) and "out" in x)
+            if got != want or got_out != out:
+                ck.failing_input("handler program in context %s (%s): value %s output %r, reference value %s output %r"
+                                 % (kn, label, got, got_out, want, out),
+                                 {"program": units[0], "engine": got + " ;; OUT " + got_out, "reference": want + " ;; OUT " + out,
+                                  "jit": label, "class": "nested-run-context", "context": kn, "handler_crossing": False}, tag="nrc")
+    ck.cov["nested_run_contexts"] = {"programs": len(NRC_PROGRAMS), "contexts": [k for k, _ in NRC_CONTEXTS]}
+
+
 def run(ck):
     ck.cov["trusted_base"] = [
         "Coq 8.16.1 kernel, coqc; vm_compute for model evaluation",
@@ -651,8 +703,6 @@ def run(ck):
         tries += 1
         p = g.program()
         if has_ctl(lang.unit_to_steel(p)):
-            if handler_crossing(p) and ck.rng.random() < 0.8:
-                continue
             progs.append(p)
             classes.append("generated")
     nontrivial = set()
@@ -688,6 +738,8 @@ def run(ck):
                             "handler_crossing": handler_crossing(small), "original_program": src}
                 ck.failing_input("engine and reference semantics differ (%s, %s): engine %s | reference %s" % (
                     cls, label, case["engine"][:300], case["reference"][:300]), case, tag="sem")
+    # handlers whose handler raises / escapes, inside every kind of nested VM run (a closure called from Rust)
+    nested_run_contexts(ck)
     # delimited control: engine against hand-computed answers
     for label, env in JIT_ENVS:
         res = ck.eval_cases([[src] for src, _ in DELIM], fresh=True, env=env)
